@@ -256,7 +256,7 @@ func (t *Type) Depth() int {
 // ---------- the catalogue of declarations ----------
 
 type Catalogue struct {
-	NInt, NStr, NBool, NF64, NU8, NC128        *Type
+	NInt, NStr, NBool, NF64, NU8, NC128, NU64  *Type
 	S0, SP, Rec, MA, SE, NSl, NMap, NArr, NPtr *Type
 	E1, E2, E3, E4, TwA, TwB                   *Type
 	ME, MP                                     *Type // named structs with user Equal/Compare methods (Go/Methods.v)
@@ -272,6 +272,7 @@ func NewCatalogue() *Catalogue {
 	c.NF64 = Named(4, "NF64", 0, B("float64"))
 	c.NU8 = Named(5, "NU8", 0, B("uint8"))
 	c.NC128 = Named(6, "NC128", 0, B("complex128"))
+	c.NU64 = Named(7, "NU64", 0, B("uint64"))
 	c.S0 = Named(10, "S0", 0, St(B("int"), B("string")))
 	c.SP = Named(11, "SP", 0, StP([]bool{false, true, false}, P(B("int")), Sl(B("string")), M(B("string"), B("int"))))
 	rec := Named(12, "Rec", 0, nil)
@@ -303,7 +304,7 @@ func NewCatalogue() *Catalogue {
 	c.MP.Methods = "func (a *MP) Equal(b *MP) bool {\n\tif a == nil || b == nil {\n\t\treturn a == nil && b == nil\n\t}\n\treturn a.F0 == b.F0\n}\n\n" +
 		"func (a *MP) Compare(b *MP) int {\n\tif a == nil {\n\t\tif b == nil {\n\t\t\treturn 0\n\t\t}\n\t\treturn -1\n\t}\n\tif b == nil {\n\t\treturn 1\n\t}\n" +
 		"\tif a.F0 < b.F0 {\n\t\treturn -1\n\t}\n\tif a.F0 > b.F0 {\n\t\treturn 1\n\t}\n\treturn 0\n}\n\n"
-	c.All = []*Type{c.NInt, c.NStr, c.NBool, c.NF64, c.NU8, c.NC128, c.S0, c.SP, c.Rec, c.MA, c.SE, c.NSl, c.NMap, c.NArr, c.NPtr, c.E1, c.E2, c.E3, c.E4}
+	c.All = []*Type{c.NInt, c.NStr, c.NBool, c.NF64, c.NU8, c.NC128, c.NU64, c.S0, c.SP, c.Rec, c.MA, c.SE, c.NSl, c.NMap, c.NArr, c.NPtr, c.E1, c.E2, c.E3, c.E4}
 	return c
 }
 
@@ -319,7 +320,7 @@ func (c *Catalogue) Leaves() []*Type {
 func (c *Catalogue) leaves() []*Type {
 	return []*Type{B("bool"), B("int"), B("int8"), B("uint8"), B("int32"), B("uint64"), B("float32"), B("float64"),
 		B("complex64"), B("complex128"), B("string"),
-		c.NInt, c.NStr, c.NBool, c.NF64, c.NU8, c.S0, c.SP, c.Rec, c.MA, c.SE, c.NSl, c.NMap, c.NArr, c.NPtr, c.E1, c.E2, c.E3, c.E4}
+		c.NInt, c.NStr, c.NBool, c.NF64, c.NU8, c.NU64, c.S0, c.SP, c.Rec, c.MA, c.SE, c.NSl, c.NMap, c.NArr, c.NPtr, c.E1, c.E2, c.E3, c.E4}
 }
 
 // KeyLeaves: value (comparable, pointer-free) types usable as map keys.
